@@ -119,6 +119,20 @@ func c15Gen(t *rapid.T) c15Case {
 				}
 			}
 		}
+		// some healthy replies reach the proxy in two reads (also on the connection dialled after the fault)
+		for ri := range cs.Reqs {
+			if len(cs.Reqs[ri].Args) == 1 && rapid.IntRange(0, 2).Draw(t, "splitreply") == 0 {
+				dup := false
+				for _, p := range plans {
+					if string(p.Key) == string(cs.Reqs[ri].Args[0]) {
+						dup = true
+					}
+				}
+				if !dup {
+					plans = append(plans, Plan{Key: cs.Reqs[ri].Args[0], SplitAt: rapid.IntRange(1, 6).Draw(t, "splitat")})
+				}
+			}
+		}
 		cs.Cuts = genCuts(40*n).Draw(t, "cuts")
 		c.Spec.Clients = append(c.Spec.Clients, cs)
 		c.Spec.Plans = append(c.Spec.Plans, plans...)
@@ -217,7 +231,9 @@ func c15Run(f *Fixture, c *c15Case) []Discrepancy {
 	}
 	for _, n := range c.Down {
 		if err := f.Cluster.SetDown(n, false); err != nil {
-			harnessProblem("cannot bring fake node %d back up: %v", n, err)
+			evidence.For("C15").Add("cases_discarded_node_port_lost", 1)
+			dropFixture(f)
+			return nil
 		}
 	}
 	ds := f.checkAlive("C15", nil)
